@@ -69,20 +69,22 @@ def gen_cases(tier, seed):
                     break
             progs.append(p)
         nd = rnd.randint(1, 4)
-        pool = [0] * (2 * nd) + [i + 1 for i, p in enumerate(progs) for _ in range(len(p) + 1)]
+        cbp = rnd.choice([0, 0, 1, 2])     # callbacks that ping their own source (other threads may ping meanwhile)
+        pool = [0] * (3 * nd + cbp) + [i + 1 for i, p in enumerate(progs) for _ in range(len(p) + 1)]
         rnd.shuffle(pool)
-        cases.append("%d | %s | %s" % (nd, ";".join(progs), "".join(map(str, pool))))
+        cases.append("%d %d | %s | %s" % (nd, cbp, ";".join(progs), "".join(map(str, pool))))
     return cases
 
 
 def judge(case, out):
     nd, progs, _ = [x.strip() for x in case.split("|")]
     progs = progs.split(";")
+    cb_owns_handle = len(nd.split()) > 1 and int(nd.split()[1]) > 0
     toks = out.split()
     fails = []
     if "HANG" in toks or "PANIC" in toks or "BAD" in toks:
         return ["hang/panic: %s" % out[-60:]]
-    handles = len(progs)
+    handles = len(progs) + (1 if cb_owns_handle else 0)
     pings_since_drain = 0
     written = 0
     closed_written = 0
@@ -219,7 +221,7 @@ def main(tier, seed):
 
 
 def replay(path):
-    cases = [l.strip() for l in open(path) if l.count("|") == 2 and l.split("|")[0].strip().isdigit()]
+    cases = [l.strip() for l in open(path) if l.count("|") == 2 and l.split("|")[0].strip().replace(" ", "").isdigit()]
     vlib.build_harness()
     vlib.build_model()
     impl = run_batch(vlib.HARNESS, "cping", cases)
